@@ -180,6 +180,19 @@ def run(chk):
                 prob = compare(c, r2[1], identical=True)
                 chk.ob("C03.I.identical-graph", f"roundtrip::{name}::primitives", prob is None, file=FILE, func="circuit_to_verilog", line=fw.node.lineno, fact=prob or {"nodes": len(c.nodes())},
                        expect="identical nodes, types, edges and output marks (no constant nodes, gate-primitive form)")
+    from ..stale import circuit_snapshot, stale_state_rule
+    from ..minieval import ModelRaise as _MR
+
+    def _mk_call(file_, fname_, *extra):
+        def _call(c):
+            r = P.call(file_, fname_, c, *extra)
+            if r[0] != "return":
+                raise _MR(r[1], r[2] if len(r) > 2 else "")
+            return r[1]
+        return _call
+
+    for beh in (False, True):
+        stale_state_rule(chk, "C03.H.no-stale-state", _mk_call(FILE, "circuit_to_verilog", beh), str, FILE, "circuit_to_verilog")
     # ---- F: to_file / from_file -------------------------------------------
     fs = MemFS()
     env_io = P.env(FILE)
